@@ -303,7 +303,7 @@ func (m *Monitor) Before(g *Gen, line string) {
 		return
 	}
 	switch w[0] {
-	case "world", "send", "cancel", "reqbatch", "begin", "end", "vote", "fund", "confirm", "delegate", "delegatek", "q_confs", "q_unsigned_sets", "q_unsigned_batches", "staking":
+	case "world", "send", "cancel", "reqbatch", "begin", "end", "vote", "fund", "confirm", "delegate", "delegatek", "q_confs", "q_unsigned_sets", "q_unsigned_batches", "staking", "import_stamped":
 		m.before = m.snap(g)
 	default:
 		m.before = nil
